@@ -430,9 +430,11 @@ func (b *Bar) serve(bs *bState) {
 func (b *Bar) render(tw int) {
 	fn := func(s *bState) {
 		frame := new(renderFrame)
-		if !s.aborted && !s.completed() && b.ctx.Err() != nil {
+		if !s.aborted && !s.completed() && (b.ctx.Err() != nil || b.containerDone()) {
 			// ctx was canceled without calling b.Abort and this frame may be
-			// the last one: draw the bar as what it is going to report.
+			// the last one: draw the bar as what it is going to report. When a
+			// parent ctx is canceled its done channel is closed before the bar's
+			// own ctx is, so the container may already be drawing its last frame.
 			s.aborted = true
 		}
 		verifhook.Event(verifhook.BarRender, b, s.current, s.total, s.refill, s.aborted, s.completed(), s.shutdown, tw)
@@ -460,6 +462,15 @@ func (b *Bar) render(tw int) {
 	case b.operateState <- fn:
 	case <-b.bsOk:
 		fn(b.bs)
+	}
+}
+
+func (b *Bar) containerDone() bool {
+	select {
+	case <-b.container.done:
+		return true
+	default:
+		return false
 	}
 }
 
